@@ -214,6 +214,9 @@ type HandlerScript struct {
 	CancelAt int
 	BlockAt  int
 	SlowUS   int
+	// InlineError makes the goroutine that called Stream call Error() right
+	// after Stream returned, with no delay in between (the way a caller would)
+	InlineError bool
 	OnCall   func(n int, tx *gobinlog.Transaction, d *Delivered) // extra monitor (C08)
 }
 
@@ -346,6 +349,8 @@ type AttemptResult struct {
 	Dump       *sim.DumpReq // the dump request of this attempt (nil if none arrived)
 	ConnsMade  int          // connections the master accepted during this attempt
 	DumpsMade  int
+	InlineErrDone bool // Error() was called inline right after Stream returned
+	InlineErr     error
 	Done       chan struct{}
 	StreamGID  int64
 }
@@ -447,6 +452,13 @@ func (s *Session) Start(hs HandlerScript, xo *xport.Options) *Running {
 			s.Tr.Add("stream-return", int64(att), 0, "")
 		}()
 		r.res.Err = s.S.Stream(ctx, handler)
+		if hs.InlineError {
+			s.mu.Lock()
+			s.streamActive = false
+			s.mu.Unlock()
+			r.res.InlineErr = s.S.Error()
+			r.res.InlineErrDone = true
+		}
 	}()
 	return r
 }
